@@ -53,6 +53,18 @@ func caseGen() *rapid.Generator[Case] {
 	dg := gen.DecoGen()
 	return rapid.Custom(func(t *rapid.T) Case {
 		c := Case{Names: rapid.SliceOfN(nameGen(), 1, 6).Draw(t, "names")}
+		if rapid.IntRange(0, 2).Draw(t, "family?") == 0 {
+			// a family of names: P and P.S (and P.S.T), each its own decoration - the longest registered name wins
+			stem := rapid.StringMatching(`[A-Za-z_-]{1,4}`).Draw(t, "family-stem")
+			switch strings.ToLower(stem) {
+			case "csv", "html", "json", "markdown", "texttable":
+				stem += "_"
+			}
+			c.Names = append(c.Names, stem+"#", stem+"#.wide")
+			if rapid.Bool().Draw(t, "family-3") {
+				c.Names = append(c.Names, stem+"#.wide.er")
+			}
+		}
 		n := rapid.IntRange(2, 14).Draw(t, "n")
 		for i := 0; i < n; i++ {
 			k := rapid.SampledFrom([]string{"register", "register", "register", "listing", "listing", "style", "style", "style", "style", "style", "registerpkg"}).Draw(t, "op")
@@ -62,11 +74,11 @@ func caseGen() *rapid.Generator[Case] {
 				op.Which = rapid.IntRange(0, 6).Draw(t, "which")
 				op.Deco = dg.Draw(t, "deco")
 			case "register":
-				op.Name = rapid.IntRange(0, 5).Draw(t, "name")
+				op.Name = rapid.IntRange(0, 8).Draw(t, "name")
 				op.Deco = dg.Draw(t, "deco")
 			case "style":
 				op.Subject = rapid.SampledFrom([]string{"name", "name", "name", "builtin", "pkg", "pkg", "texttable", "unknown", "empty"}).Draw(t, "subject")
-				op.Name = rapid.IntRange(0, 5).Draw(t, "name")
+				op.Name = rapid.IntRange(0, 8).Draw(t, "name")
 				op.Which = rapid.IntRange(0, 5).Draw(t, "which")
 				switch op.Subject {
 				case "name", "builtin":
